@@ -496,7 +496,7 @@ def _configs(tier, seed):
             nfreq = 1 + (i % 2)
             combos = [(comps, nfreq, mode, inverse)]
             if thorough:
-                combos = [(cs, nf, m, inv) for cs in (COMP_SETS_QUICK[0], comps) for nf in (1, 2) for m in ("continuous", "pulse") for inv in (False, True)]
+                combos = sorted({(cs, 1 + int(m == "pulse"), m, inv) for cs in (COMP_SETS_QUICK[0], comps) for m in ("continuous", "pulse") for inv in (False, True)})
             for cs_, nf, m, inv in combos:
                 out[f"phasor/{gl}/{_lab(sizes)}/{'+'.join(cs_)}/f{nf}/{m}/{'inv' if inv else 'fwd'}"] = (_phasor_task(nonuni, sizes, cs_, nf, m, inv))
     # inverse phasor detectors
@@ -535,7 +535,7 @@ def _configs(tier, seed):
 
 
 def tasks(tier, seed):
-    return L.grouped(_configs(tier, seed), 20 if tier == "quick" else 40)
+    return L.grouped(_configs(tier, seed), 20 if tier == "quick" else 30)
 
 
 # ---------------------------------------------------------------------------------------
